@@ -436,7 +436,7 @@ func init() {
 										default:
 											env["x"] = system.MustParseTime(strings.TrimPrefix(v.text, "T"))
 										}
-										env["q"] = system.MustParseQuantity(amount, u.text)
+										env["q"] = lib.Qty(amount, u.text)
 										src = "%x " + op + " %q"
 									}
 									res := lib.Run(src, nil, env)
@@ -494,7 +494,7 @@ func init() {
 					for _, a := range pool {
 						for _, b := range pool {
 							for _, op := range []string{"+", "-"} {
-								res := lib.Run("%a "+op+" %b", nil, map[string]any{"a": system.MustParseQuantity(a.n, a.u), "b": system.MustParseQuantity(b.n, b.u)})
+								res := lib.Run("%a "+op+" %b", nil, map[string]any{"a": lib.Qty(a.n, a.u), "b": lib.Qty(b.n, b.u)})
 								r.Eval()
 								r.State("qty|" + fmt.Sprint(a.u == b.u))
 								r.Nontrivial(a.n, a.u, op, b.n, b.u, res.String())
